@@ -122,7 +122,7 @@ func main() {
 	}
 	thumbJSON, _ := json.Marshal(wantThumbs)
 
-	n := r.N(3000, 40000)
+	n := r.N(3000, 150000)
 	lib.Parallel(n, 16, func(seq int) {
 		rng := r.Rand(fmt.Sprintf("seq-%d", seq))
 		onDisk := seq%2 == 1
